@@ -24,6 +24,8 @@ pub struct Out {
     pub quiet: bool,
     /// universal histories are also judged by the (generic) monitor of the property
     pub monitored: bool,
+    /// client histories are judged by the history-independence monitor
+    pub metamorphic: bool,
 }
 
 impl Out {
@@ -35,6 +37,7 @@ impl Out {
             distinct: HashSet::new(),
             nontrivial: HashSet::new(),
             hist: BTreeMap::new(),
+            metamorphic: false,
             monitor_checks: 0,
             monitor_failures: 0,
             samples: vec![],
